@@ -395,3 +395,136 @@ def run(P, rep, tier):
                        ('%s and %s are derived from transposed quantities' % (ta, tc)) if not same else
                        ('%s and %s are both assigned %s: one of them is computed from the wrong dimension' % (ta, tc, ra[:80])))
     rep.floor('C10.TRANSPOSE', 20)
+
+    # ---------------- REFNULL: reference slots are empty (NULL) on a fresh decoder and after a rejected key frame.  While the
+    # frame header is being parsed nothing has yet established that a slot named by the bitstream is occupied, so in the header
+    # parser (functions that read bits) every dereference of a pointer taken from ref_frame_map[] / get_ref_frame_buf() must be
+    # dominated by a NULL test of that pointer that leaves the function, or by a validation loop over the references doing so.
+    REFSRC = ('EbDecHandle.ref_frame_map',)
+    hdr_fns = [g for g in P.fns if g.lib == 'Decoder' and not g.nocfg and g.file.endswith('EbDecParseObu.c')]
+    nref = 0
+    for g in hdr_fns:
+        # locals holding a reference-slot pointer
+        refl = {}
+        for ev in g.events(('decl', 'st')):
+            e = ev.get('e')
+            if e is None:
+                continue
+            name, rhs = (ev['n'], e) if ev['k'] == 'decl' else ((strip(e[2]), e[3]) if e[0] == 'a' and e[1] == '=' else (None, None))
+            if name is None:
+                continue
+            r = strip(rhs)
+            from_ref = (r[0] == 'c' and callee_name(r) == 'get_ref_frame_buf') or (r[0] == 'i' and last_field(strip(r[1])) in REFSRC)
+            if from_ref:
+                key = name if isinstance(name, str) else pstr(name)
+                refl[key] = ev
+        if not refl:
+            continue
+        # validation sites: `if (<ref expr or local> == NULL / !x) ... return`
+        def null_tested(ev, key):
+            # texts whose NULL test protects the key: the key itself, the expression it was loaded from, and - for pointers
+            # obtained through get_ref_frame_buf - a validation of that accessor (the loop over LAST..ALTREF that leaves on NULL)
+            d = refl[key]
+            de = d.get('e')
+            src = strip(de if d['k'] == 'decl' else de[3])
+            texts = [key, pstr(src)]
+            if src[0] == 'c':
+                texts.append('get_ref_frame_buf(')
+            for t in texts[1:]:
+                for b in g.reach():
+                    c = g.blocks[b].get('fullcond')
+                    if c is None or t not in pstr(strip(c)):
+                        continue
+                    evs = g.blocks[b]['ev']
+                    rets = [s_ for s_ in g.blocks[b]['succ'] if s_ is not None and any(x['k'] == 'ret' for x in g.blocks[s_]['ev'])]
+                    if evs and rets and g.ev_dominates(evs[-1], ev):
+                        return True
+                    # validation loop: the test sits in a `for` with literal bounds that runs at least once; then the loop
+                    # (its header) has to dominate the dereference - the body is executed before the loop is left
+                    if evs and rets:
+                        loops = [(k2, c2, l2) for k2, c2, l2 in g.ctl_chain(evs[-1]) if k2 == 'for' and c2 is not None]
+                        if loops:
+                            k2, c2, l2 = loops[0]
+                            c2 = strip(c2)
+                            lit_bound = c2[0] == 'b' and c2[1] in ('<', '<=') and strip(c2[3])[0] == 'l' and strip(c2[2])[0] == 'v'
+                            init = [x for x in g.events(('decl',)) if x['n'] == (strip(c2[2])[1] if lit_bound else None) and x.get('l') == l2 and x.get('e') is not None and strip(x['e'])[0] == 'l']
+                            if lit_bound and init and (strip(init[0]['e'])[1] < strip(c2[3])[1] or (c2[1] == '<=' and strip(init[0]['e'])[1] <= strip(c2[3])[1])):
+                                hdr = [hb for hb in g.reach() if g.blocks[hb].get('tk') == 'ForStmt' and g.blocks[hb].get('tl') == l2]
+                                if hdr and g.block_dominates(hdr[0], ev['b']) and ev['b'] != hdr[0] and ev.get('l', 0) > evs[-1].get('l', 0):
+                                    return True
+            # the function is only called after its callers validated the references
+            if key in refl and strip(refl[key].get('e') if refl[key]['k'] == 'decl' else refl[key]['e'][3])[0] == 'c':
+                sites = P.call_sites(g.name)
+                if sites and all(any(pstr(strip(g2.blocks[b2]['fullcond'])).find('get_ref_frame_buf(') >= 0 and g2.blocks[b2]['ev'] and
+                                     any(x['k'] == 'ret' for s_ in g2.blocks[b2]['succ'] if s_ is not None for x in g2.blocks[s_]['ev']) and
+                                     (g2.blocks[b2]['ev'][-1].get('l', 0) < cev.get('l', 0))
+                                     for b2 in g2.reach() if g2.blocks[b2].get('fullcond') is not None) for g2, cev in sites):
+                    return True
+            for kind, cond, line in g.ctl_chain(ev):
+                if cond is not None and key in pstr(strip(cond)):
+                    return True
+            # earlier block that tests the key against NULL and returns, dominating ev
+            for b in g.reach():
+                c = g.blocks[b].get('fullcond')
+                if c is None or key not in pstr(strip(c)):
+                    continue
+                evs = g.blocks[b]['ev']
+                if not evs:
+                    continue
+                rets = [s_ for s_ in g.blocks[b]['succ'] if s_ is not None and any(x['k'] == 'ret' for x in g.blocks[s_]['ev'])]
+                if rets and g.ev_dominates(evs[-1], ev):
+                    return True
+            return False
+        done = set()
+        for ev in g.events():
+            e = ev.get('e')
+            if e is None:
+                continue
+            for x in subexprs(e):
+                if x[0] == 'm' and x[2]:
+                    b = strip(x[3])
+                    key = b[1] if b[0] == 'v' else pstr(b)
+                    if key in refl and refl[key] is not ev and g.ev_dominates(refl[key], ev) and (key, refl[key].get('l')) not in done:
+                        done.add((key, refl[key].get('l')))
+                        nref += 1
+                        ok = null_tested(ev, key)
+                        rep.ob('C10.REFNULL', '%s/%s' % (g.name, key[:40]), ok, g.loc(ev),
+                               ('%s is tested against NULL before it is dereferenced' % key[:40]) if ok else
+                               ('%s comes from a reference slot named by the bitstream and is dereferenced (->%s) without a NULL test: a frame that refers to an empty slot (fresh decoder, lost key frame) crashes the decoder' % (key[:40], x[1].split('.')[1])))
+    rep.floor('C10.REFNULL', 3)
+
+    # ---------------- TILESIZE: a coded tile size is validated before the reader is positioned behind the tile.  dec_bits_init
+    # prefetches from the address it is given, so `dec_bits_init(bs, buf + tile_size, ..)` with an unvalidated size reads at a
+    # distance chosen by the bitstream.  In the single-thread walk the validation is init_svt_reader's range test, reached
+    # through start_parse_tile: the call that reaches it (with its status tested) must dominate the re-positioning.
+    MT_ONLY = {'svt_av1_scan_tiles': 'tile scan of the multi-threaded decoder (called under is_mt only): outside this property\'s quantifier (single-threaded decoder); it re-positions without any validation - noted, not decided here'}
+    validators = {g for g in P.fns if not g.nocfg and g.lib == 'Decoder' and any(t.name == 'read_is_valid' for t in P.reachable_from([g]))}
+    nts = 0
+    for g in P.fns:
+        if g.lib != 'Decoder' or g.nocfg:
+            continue
+        for ev, nm in g.calls(('dec_bits_init',)):
+            a = strip(ev['e'][2][1]) if len(ev['e'][2]) > 1 else None
+            if a is None or a[0] != 'b' or a[1] != '+':
+                continue
+            szs = [x for x in (strip(a[2]), strip(a[3])) if x and x[0] == 'v' and x[2] == 'l']
+            if not szs:
+                continue
+            sz = szs[0][1]
+            from_bits = any((d['k'] == 'st' and d['e'][0] == 'a' and strip(d['e'][2]) == szs[0] and any(y[0] == 'c' and (callee_name(y) or '').startswith('dec_get_bits') for y in subexprs(d['e'][3])))
+                            for d in g.events(('st',)))
+            if not from_bits:
+                continue
+            nts += 1
+            if g.name in MT_ONLY:
+                rep.exempt('C10.TILESIZE', g.name, MT_ONLY[g.name])
+                rep.ob('C10.TILESIZE', '%s/%s' % (g.name, sz), True, g.loc(ev), 'exempt: ' + MT_ONLY[g.name], nontrivial=False)
+                continue
+            doms = [c for c, n2 in g.calls() if n2 and any(t in validators for t in P.resolve(n2, g)) and g.ev_dominates(c, ev)]
+            cmps = [b for b in g.reach() if g.blocks[b].get('fullcond') is not None and any(y[0] == 'v' and y[1] == sz for y in subexprs(g.blocks[b]['fullcond']))
+                    and g.blocks[b]['ev'] and g.ev_dominates(g.blocks[b]['ev'][-1], ev)]
+            ok = bool(doms) or bool(cmps)
+            rep.ob('C10.TILESIZE', '%s/%s' % (g.name, sz), ok, g.loc(ev),
+                   ('the coded %s is range-tested (%s) before the reader is positioned behind the tile' % (sz, callee_name(doms[0]['e']) if doms else 'comparison')) if ok else
+                   ('the reader is re-positioned at buf + %s (and prefetches from there) before the coded size has been validated: a size pointing past the OBU makes the decoder read at a bitstream-chosen distance behind its input' % sz))
+    rep.floor('C10.TILESIZE', 2)
